@@ -394,7 +394,7 @@ func c16CKKS(c *Ctx, ns []int) {
 				if !c.Thorough() && (lin+ni+si)%2 == 1 {
 					continue
 				}
-				sigma := []float64{3.2, 25.6}[c.rng.Intn(2)]
+				sigma := c16PickSigma(c, math.Inf(1))
 				logSlots := set.cp.LogMaxSlots() - c.rng.Intn(3)
 				c14Guard(c, "C16-harness-panic", "c16CKKSRun", func() { c16CKKSRun(c, set, n, lin, set.maxQ(), sigma, logBound, logSlots, nil, false) })
 				c14Guard(c, "C16-harness-panic", "c16CKKSRun", func() { c16CKKSRun(c, set, n, lin, c.rng.Intn(set.maxQ()+1), sigma, logBound, logSlots, nil, true) })
@@ -406,11 +406,13 @@ func c16CKKS(c *Ctx, ns []int) {
 			for _, wp := range []bool{false, true} {
 				c16OutSet, c16UseWithParams = c16CKKSOutFor(set), wp
 				lo := c.rng.Intn(c16OutSet.maxQ() + 1)
-				c14Guard(c, "C16-harness-panic", "c16CKKSRun", func() { c16CKKSRun(c, set, n, set.maxQ(), lo, 3.2, logBound, set.cp.LogMaxSlots(), nil, true) })
+				c14Guard(c, "C16-harness-panic", "c16CKKSRun", func() {
+					c16CKKSRun(c, set, n, set.maxQ(), lo, c16PickSigma(c, math.Inf(1)), logBound, set.cp.LogMaxSlots(), nil, true)
+				})
 				if c.Thorough() || wp {
 					fn := funcs[c.rng.Intn(len(funcs))]
 					c14Guard(c, "C16-harness-panic", "c16CKKSRun", func() {
-						c16CKKSRun(c, set, n, minLevel, c16OutSet.maxQ(), 25.6, logBound, set.cp.LogMaxSlots()-1, &fn, true)
+						c16CKKSRun(c, set, n, minLevel, c16OutSet.maxQ(), c16PickSigma(c, math.Inf(1)), logBound, set.cp.LogMaxSlots()-1, &fn, true)
 					})
 				}
 				c16OutSet, c16UseWithParams = nil, false
@@ -557,7 +559,7 @@ func c16CKKSRun(c *Ctx, set c16CKKSSet, n, lin, lout int, sigma float64, logBoun
 				maskRange = fmt.Sprintf("party_%d_%s", i, d)
 			}
 			e := c16SampleSigned(params, tE[i], lin, false)
-			c16Record(fmt.Sprintf("ckks_e2s copy=%t sigma=%g", copiedAll[i], sigma),
+			c16Record(fmt.Sprintf("ckks_e2s_share ctor=%s sigma=%g", map[bool]string{false: "new", true: "copy"}[copiedAll[i]], sigma),
 				c16Residual(params, lin, true, pub[i].Value, []c16Term{{ct.Value[1], keys.sk[i], 1}}, nil, []ring.Poly{c16CKKSEmbed(params, lin, ct.MetaData, sec[i].Value[:dslots])}))
 			rows[i] = Mat(c16QRows(params, pub[i].Value, lin, true))
 			c.Emit(fmt.Sprintf("ckks_e2s %s %s %s %s %s", hdrI, c1, IVec(keys.s[i]), IVec(e), c16BigVec(mask)), rows[i])
@@ -609,7 +611,7 @@ func c16CKKSRun(c *Ctx, set c16CKKSSet, n, lin, lout int, sigma float64, logBoun
 				panic(err)
 			}
 			e := c16SampleSigned(params, tS[i], lout, false)
-			c16Record(fmt.Sprintf("ckks_s2e copy=%t sigma=%g", copiedAll[i], sigma),
+			c16Record(fmt.Sprintf("ckks_s2e_share ctor=%s sigma=%g", map[bool]string{false: "new", true: "copy"}[copiedAll[i]], sigma),
 				c16Residual(params, lout, true, sh[i].Value, []c16Term{{crp.Value, keys.sk[i], -1}}, []ring.Poly{c16CKKSEmbed(params, lout, ct.MetaData, final[i].Value[:dslots])}, nil))
 			c.Emit(fmt.Sprintf("ckks_s2e %s %s %s %s %s", hdrO, a, IVec(keys.s[i]), IVec(e), c16BigVec(final[i].Value[:dslots])),
 				Mat(c16QRows(params, sh[i].Value, lout, true)))
@@ -691,12 +693,29 @@ func c16CKKSRun(c *Ctx, set c16CKKSSet, n, lin, lout int, sigma float64, logBoun
 	tE := make([]ring.Sampler, n)
 	tS := make([]ring.Sampler, n)
 	copied := make([]bool, n)
+	ctor := make([]string, n)
 	for i := range protos {
 		mark := RandMark()
 		iE, iS := 0, 1
 		if i == 0 || c.rng.Intn(2) == 0 {
 			var err error
-			if c16OutSet != nil && c16UseWithParams {
+			ctor[i] = "NewMaskedLinearTransformationProtocol"
+			if c16OutSet == nil && fn == nil && c.rng.Intn(2) == 0 {
+				// the refresh wrapper
+				var r mpckks.RefreshProtocol
+				if r, err = mpckks.NewRefreshProtocol(set.cp, prec, flood); err != nil {
+					panic(err)
+				}
+				if c.rng.Intn(2) == 0 {
+					protos[i], ctor[i] = r.MaskedLinearTransformationProtocol, "NewRefreshProtocol"
+				} else {
+					// (one extra pair of crypto/rand reads: the copy's samplers are the last two)
+					cp := r.ShallowCopy()
+					protos[i], ctor[i] = cp.MaskedLinearTransformationProtocol, "NewRefreshProtocol.ShallowCopy"
+					iE, iS = 2, 3
+				}
+			} else if c16OutSet != nil && c16UseWithParams {
+				ctor[i] = "WithParams"
 				var p0 mpckks.MaskedLinearTransformationProtocol
 				if p0, err = mpckks.NewMaskedLinearTransformationProtocol(set.cp, set.cp, prec, flood); err != nil {
 					panic(err)
@@ -708,8 +727,10 @@ func c16CKKSRun(c *Ctx, set c16CKKSSet, n, lin, lout int, sigma float64, logBoun
 				panic(err)
 			}
 		} else {
-			protos[i] = protos[c.rng.Intn(i)].ShallowCopy()
+			j := c.rng.Intn(i)
+			protos[i] = protos[j].ShallowCopy()
 			copied[i] = true
+			ctor[i] = strings.TrimSuffix(ctor[j], ".ShallowCopy") + ".ShallowCopy"
 		}
 		tE[i], _ = ring.NewSampler(TwinPRNG(mark, iE), ringQ, noise, false)
 		tS[i], _ = ring.NewSampler(TwinPRNG(mark, iS), oparams.RingQ(), noiseOut, false)
@@ -737,9 +758,9 @@ func c16CKKSRun(c *Ctx, set c16CKKSSet, n, lin, lout int, sigma float64, logBoun
 		rowsS[i] = Mat(c16QRows(oparams, shares[i].ShareToEncShare.Value, lout, true))
 		c.Emit(fmt.Sprintf("ckks_e2s %s %s %s %s %s", hdrI, c1, IVec(keys.s[i]), IVec(e1), c16BigVec(mask)), rowsE[i])
 		mask2 := c16CKKSTransform(oset, fn, prec, ct.MetaData, mask, defScale, inScale)
-		c16Record(fmt.Sprintf("ckks_refresh copy=%t sigma=%g", copied[i], sigma),
+		c16Record(fmt.Sprintf("ckks_refresh_e2s_share ctor=%s sigma=%g", ctor[i], sigma),
 			c16Residual(params, lin, true, shares[i].EncToShareShare.Value, []c16Term{{ct.Value[1], keys.sk[i], 1}}, nil, []ring.Poly{c16CKKSEmbed(params, lin, ct.MetaData, mask)}))
-		c16Record(fmt.Sprintf("ckks_refresh copy=%t sigma=%g", copied[i], sigma),
+		c16Record(fmt.Sprintf("ckks_refresh_s2e_share ctor=%s sigma=%g", ctor[i], sigma),
 			c16Residual(oparams, lout, true, shares[i].ShareToEncShare.Value, []c16Term{{crp.Value, okeys.sk[i], -1}}, []ring.Poly{c16CKKSEmbed(oparams, lout, ct.MetaData, mask2)}, nil))
 		if fn == nil {
 			c.Emit(fmt.Sprintf("ckks_scale %s %s %s", defScale, inScale, c16BigVec(mask)), c16BigVec(mask2))
